@@ -28,6 +28,9 @@ def main():
     try:
         shutil.copytree(d, demo_dir)
         cmd = meta["demo_cmd"]
+        # attackers often write "<cmd> <build-dir>   (e.g. <cmd> /path/_build)": keep the command, fill the placeholder
+        cmd = re.split(r"\s+(?:\(e\.g\.|# e\.g\.|\(|#)", cmd)[0].strip()
+        cmd = re.sub(r"<build[- ]dir>", wt + "/_build", cmd)
         # rewrite the attacker's paths: <anything>/_build -> our build, the out dir -> our copy
         cmd = re.sub(r"/tmp/atk\w*/C\d+\w*-out/\d+", demo_dir, cmd)
         cmd = re.sub(r"/tmp/atk\w*/C\d+\w*(?=/_build|\b(?!-))", wt, cmd)
@@ -62,6 +65,7 @@ def main():
                 shutil.rmtree(dst)
             shutil.copytree(d, dst)
             meta["wave"] = 3
+            meta["property"] = re.sub(r"^(C\d\d)c$", r"\1", meta.get("property", ""))
             meta["confirmed"] = {"by": "tools/verify_seed.py", "at": time.strftime("%Y-%m-%dT%H:%M:%SZ", time.gmtime()),
                                  "clean_demo_rc": rc0, "patched_demo_rc": rc1, "ctest_patched_rc": res["ctest_rc"],
                                  "patched_demo_tail": out1[-300:]}
